@@ -61,6 +61,8 @@ def gen(tier, rng):
     n = 700 if tier == "quick" else 30000
     for pi in range(n):
         nums = sorted(rng.sample(range(10, 400, 10), rng.randint(3, 7)))
+        if rng.random() < 0.2:
+            nums = [0] + nums         # line 0 is a legal line: its prefix in the listing is one digit and a blank
         lines = {}
         for k in nums:
             body = rng.choice(["Q=Q+1", "GOTO %d" % rng.choice(nums), "GOSUB %d" % nums[-1], "REM x", "IF Z THEN %d" % rng.choice(nums), "Z=Z"])
